@@ -323,3 +323,467 @@ Proof.
   intros amts c. rewrite handover_fold_eq. unfold holds_C09_handover.
   cbn [c_vault c_auction c_locked c_auctions]. lia.
 Qed.
+
+(* ------------------------------------------------------------------------------------ *)
+(* liveness                                                                               *)
+
+Lemma zlen_nonneg {A} (l : list A) : 0 <= zlen l.
+Proof. unfold zlen. lia. Qed.
+Lemma zlen_app {A} (l1 l2 : list A) : zlen (l1 ++ l2) = zlen l1 + zlen l2.
+Proof. unfold zlen. rewrite app_length. lia. Qed.
+Lemma zlen_map {A B} (f : A -> B) l : zlen (map f l) = zlen l.
+Proof. unfold zlen. rewrite map_length. reflexivity. Qed.
+
+(* ---- what one block does to the id list ---- *)
+Lemma sweep_items_lpos : forall u w, sweep_items GV2 0 (map (lpos u) w) = (filter u w, Done).
+Proof.
+  induction w as [|a w IH]; [reflexivity|].
+  cbn [map sweep_items eff_verdict lpos p_v p_id filter]. destruct (u a); rewrite IH; reflexivity.
+Qed.
+
+Lemma map_id_after_seize : forall u seized ids,
+  map p_id (after_seize GV2 seized (map (lpos u) ids)) = filter (fun id => negb (mem_z id seized)) ids.
+Proof.
+  intros u seized ids. unfold after_seize. cbn [removes].
+  induction ids as [|a ids IH]; [reflexivity|].
+  cbn [map filter lpos p_id]. destruct (negb (mem_z a seized)); cbn [map p_id]; rewrite IH; reflexivity.
+Qed.
+
+Definition window_of (ids : list Z) (off b : Z) : list Z :=
+  let se := sweep_window (zlen ids) off b in
+  firstn (Z.to_nat (snd se - fst se)) (skipn (Z.to_nat (fst se)) ids).
+
+Lemma block_ids_eq : forall ids off b u,
+  block_ids ids off b u =
+    (filter u (window_of ids off b),
+     filter (fun id => negb (mem_z id (filter u (window_of ids off b)))) ids,
+     snd (sweep_window (zlen ids) off b)).
+Proof.
+  intros ids off b u. unfold block_ids, sweep_core, window_of.
+  destruct (sweep_window_ok_lem (zlen ids) off b (zlen_nonneg ids)) as ((H1 & H2) & H3).
+  set (se := sweep_window (zlen ids) off b) in *.
+  unfold go_slice.
+  replace ((0 <=? fst se) && (fst se <=? snd se) && (snd se <=? zlen ids)) with true by lia.
+  rewrite zlen_map. replace (zlen ids - zlen ids) with 0 by lia. cbn [Z.to_nat repeat].
+  rewrite app_nil_r. rewrite skipn_map. rewrite firstn_map.
+  rewrite sweep_items_lpos. cbn [fst snd]. rewrite map_id_after_seize. reflexivity.
+Qed.
+
+(* ---- indices ---- *)
+Lemma idxn_lt : forall x l, In x l -> (idxn x l < length l)%nat.
+Proof.
+  induction l as [|a l IH]; intros H; [contradiction|]. cbn [idxn length].
+  destruct (a =? x) eqn:E; [lia|]. destruct H as [H|H]; [lia|]. specialize (IH H). lia.
+Qed.
+
+Lemma idx_bounds : forall x l, In x l -> 0 <= idx x l < zlen l.
+Proof. intros x l H. unfold idx, zlen. pose proof (idxn_lt x l H). lia. Qed.
+
+Lemma idxn_app_l : forall x l1 l2, In x l1 -> idxn x (l1 ++ l2) = idxn x l1.
+Proof.
+  induction l1 as [|a l1 IH]; intros l2 H; [contradiction|]. cbn [app idxn].
+  destruct (a =? x) eqn:E; [reflexivity|]. destruct H as [H|H]; [lia|]. rewrite IH; auto.
+Qed.
+
+Lemma idxn_in_window : forall x l (s k : nat), In x l -> (s <= idxn x l < s + k)%nat ->
+  In x (firstn k (skipn s l)).
+Proof.
+  induction l as [|a l IH]; intros s k H Hr; [contradiction|]. cbn [idxn] in Hr.
+  destruct (a =? x) eqn:E.
+  - assert (s = O) by lia. subst s. cbn [skipn]. destruct k; [lia|]. cbn [firstn]. left. lia.
+  - destruct H as [H|H]; [lia|].
+    destruct s.
+    + cbn [skipn]. destruct k; [lia|]. cbn [firstn]. right.
+      apply (IH O k H). cbn [skipn]. lia.
+    + cbn [skipn]. apply IH; [exact H|lia].
+Qed.
+
+Lemma in_window_of : forall x ids off b, In x ids ->
+  fst (sweep_window (zlen ids) off b) <= idx x ids < snd (sweep_window (zlen ids) off b) ->
+  In x (window_of ids off b).
+Proof.
+  intros x ids off b H Hr. unfold window_of.
+  destruct (sweep_window_ok_lem (zlen ids) off b (zlen_nonneg ids)) as ((H1 & H2) & H3).
+  apply idxn_in_window; [exact H|]. unfold idx in Hr. lia.
+Qed.
+
+Lemma mem_z_in : forall x l, mem_z x l = true <-> In x l.
+Proof.
+  intros x l. unfold mem_z. rewrite existsb_exists. split.
+  - intros (y & Hy & E). assert (x = y) by lia. subst. exact Hy.
+  - intros H. exists x. split; [exact H|lia].
+Qed.
+
+Lemma filter_all {A} (f : A -> bool) l : (forall x, In x l -> f x = true) -> filter f l = l.
+Proof.
+  induction l as [|a l IH]; intros H; [reflexivity|]. cbn [filter].
+  rewrite (H a (or_introl eq_refl)). f_equal. apply IH. intros x Hx. apply H. right; exact Hx.
+Qed.
+
+Lemma zlen_filter_le {A} (f : A -> bool) l : zlen (filter f l) <= zlen l.
+Proof. induction l as [|a l IH]; [unfold zlen; cbn; lia|]. cbn [filter]. destruct (f a); rewrite !zlen_cons; lia. Qed.
+
+Lemma zlen_filter_lt {A} (f : A -> bool) l y : In y l -> f y = false -> zlen (filter f l) <= zlen l - 1.
+Proof.
+  induction l as [|a l IH]; intros H Hf; [contradiction|]. cbn [filter]. destruct H as [<-|H].
+  - rewrite Hf. rewrite zlen_cons. pose proof (zlen_filter_le f l). lia.
+  - specialize (IH H Hf). destruct (f a); rewrite !zlen_cons; lia.
+Qed.
+
+(* ---- arithmetic of the potential ---- *)
+Lemma div_sub_b a b : 0 < b -> (a - b) / b = a / b - 1.
+Proof. intros Hb. replace (a - b) with (a + (-1) * b) by lia. rewrite Z.div_add by lia. lia. Qed.
+
+Lemma div_succ_le a b : 0 < b -> (a + 1) / b <= a / b + 1.
+Proof.
+  intros Hb. replace (a / b + 1) with ((a + 1 * b) / b) by (rewrite Z.div_add by lia; lia).
+  apply Z.div_le_mono; lia.
+Qed.
+
+Lemma live_R_mono m m' b : 0 < b -> m' <= m -> live_R m' b <= live_R m b.
+Proof. intros Hb H. unfold live_R. pose proof (Z.div_le_mono (m' - 1) (m - 1) b Hb). lia. Qed.
+
+Lemma live_R_pos m b : 0 < b -> 1 <= m -> 2 <= live_R m b.
+Proof. intros Hb H. unfold live_R. pose proof (Z.div_pos (m - 1) b). lia. Qed.
+
+(* Claim A: 0 <= T <= R(n) - 1 for a position inside the list *)
+Lemma pot_T_bounds n i off b : 0 < b -> 0 <= i < n -> 0 <= off ->
+  0 <= pot_T n i off b <= live_R n b - 1.
+Proof.
+  intros Hb Hi Ho. unfold pot_T, live_R.
+  destruct (off <? n) eqn:E1; [destruct (off <=? i) eqn:E2|].
+  - pose proof (Z.div_pos (i - off) b). pose proof (Z.div_le_mono (i - off) (n - 1) b Hb). lia.
+  - pose proof (Z.div_pos (n - off + i) b). pose proof (Z.div_le_mono (n - off + i) (n - 1) b Hb). lia.
+  - pose proof (Z.div_pos i b). pose proof (Z.div_le_mono i (n - 1) b Hb). lia.
+Qed.
+
+(* Claim B: a block that seizes nothing and does not contain index i brings the offset closer *)
+Lemma pot_T_quiet n i off b : 0 < b -> 0 <= i < n -> 0 <= off ->
+  ~ (fst (sweep_window n off b) <= i < snd (sweep_window n off b)) ->
+  pot_T n i (snd (sweep_window n off b)) b <= pot_T n i off b - 1.
+Proof.
+  intros Hb Hi Ho Hnot. rewrite sweep_window_eq in * by lia. unfold pot_T.
+  destruct (off <? n) eqn:E1; cbn [fst snd] in *.
+  - destruct (off <=? i) eqn:E2.
+    + (* i beyond the window: the window is full *)
+      assert (Z.min (off + b) n = off + b) by lia. rewrite H in *.
+      replace (off + b <? n) with true by lia. replace (off + b <=? i) with true by lia.
+      replace (i - (off + b)) with (i - off - b) by lia. rewrite div_sub_b by lia. lia.
+    + destruct (Z.min (off + b) n <? n) eqn:E3.
+      * assert (Z.min (off + b) n = off + b) by lia. rewrite H in *.
+        replace (off + b <=? i) with false by lia.
+        replace (n - (off + b) + i) with (n - off + i - b) by lia. rewrite div_sub_b by lia. lia.
+      * pose proof (Z.div_le_mono i (n - off + i) b Hb). lia.
+  - replace (0 <? n) with true in * by lia. cbn [fst snd] in *.
+    assert (Z.min b n = b) by lia. rewrite H in *.
+    replace (b <? n) with true by lia. replace (b <=? i) with true by lia.
+    rewrite div_sub_b by lia. lia.
+Qed.
+
+(* Claim D: appending one position costs at most 2 *)
+Lemma pot_T_create n i off b : 0 < b -> 0 <= i < n -> 0 <= off ->
+  pot_T (n + 1) i off b <= pot_T n i off b + 2.
+Proof.
+  intros Hb Hi Ho. unfold pot_T.
+  destruct (off <? n) eqn:E1.
+  - replace (off <? n + 1) with true by lia. destruct (off <=? i); [lia|].
+    replace (n + 1 - off + i) with (n - off + i + 1) by lia.
+    pose proof (div_succ_le (n - off + i) b Hb). lia.
+  - destruct (off <? n + 1) eqn:E2; [|lia].
+    replace (off <=? i) with false by lia. assert (off = n) by lia. subst off.
+    replace (n + 1 - n + i) with (i + 1) by lia. pose proof (div_succ_le i b Hb). lia.
+Qed.
+
+(* Claim C: any step that shrinks the list (x staying inside) pays for a whole new round *)
+Lemma pot_shrink b x ids off ids' off' c : 0 < b -> 0 <= c ->
+  In x ids -> In x ids' -> 0 <= off' -> zlen ids' <= zlen ids - 1 ->
+  pot b x (ids', off') c <= pot b x (ids, off) c - 1.
+Proof.
+  intros Hb Hc Hx Hx' Ho' Hlen. unfold pot. cbn [fst snd].
+  pose proof (idx_bounds x ids Hx) as Hi. pose proof (idx_bounds x ids' Hx') as Hi'.
+  set (n := zlen ids) in *. set (n' := zlen ids') in *.
+  pose proof (pot_T_bounds n' (idx x ids') off' b Hb Hi' Ho') as HT'.
+  assert (HT : 0 <= pot_T n (idx x ids) off b).
+  { unfold pot_T. destruct (off <? n) eqn:E0; [destruct (off <=? idx x ids) eqn:E|].
+    - apply Z.div_pos; lia.
+    - pose proof (Z.div_pos (n - off + idx x ids) b). lia.
+    - apply Z.div_pos; lia. }
+  pose proof (live_R_mono (n' + c) n' b Hb ltac:(lia)) as M1.
+  pose proof (live_R_mono (n + c) (n' + c) b Hb ltac:(lia)) as M2.
+  pose proof (live_R_pos (n' + c) b Hb ltac:(lia)) as P1.
+  set (R' := live_R (n' + c) b) in *. set (R := live_R (n + c) b) in *.
+  assert ((n' + c) * R' <= (n + c - 1) * R) by nia.
+  lia.
+Qed.
+
+(* ---- the schedule ---- *)
+Definition ev_ok (x : Z) (st : list Z * Z) (e : event) : Prop :=
+  match e with
+  | EBlock u => u x = true
+  | EClose id => id <> x
+  | ECreate id => ~ In id (fst st) /\ id <> x
+  end.
+
+Fixpoint run_ok (b x : Z) (st : list Z * Z) (evs : list event) : Prop :=
+  match evs with
+  | [] => True
+  | e :: r => ev_ok x st e /\ run_ok b x (ev_step b st e) r
+  end.
+
+Definition st_inv (st : list Z * Z) : Prop := NoDup (fst st) /\ 0 <= snd st.
+
+Lemma nodup_filter {A} (f : A -> bool) l : NoDup l -> NoDup (filter f l).
+Proof. apply NoDup_filter. Qed.
+
+Lemma nodup_snoc {A} (l : list A) a : NoDup l -> ~ In a l -> NoDup (l ++ [a]).
+Proof.
+  induction l as [|y l IH]; intros Hnd Hni; cbn [app].
+  - constructor; [intros []|constructor].
+  - inversion Hnd as [|z l' Hy Hnd']; subst. constructor.
+    + intros Hin. apply in_app_or in Hin. destruct Hin as [Hin|[<-|[]]]; [exact (Hy Hin)|]. apply Hni. left; reflexivity.
+    + apply IH; [exact Hnd'|]. intros Hin. apply Hni. right; exact Hin.
+Qed.
+
+Lemma ev_step_inv b st e x : 0 < b -> st_inv st -> ev_ok x st e -> st_inv (ev_step b st e).
+Proof.
+  intros Hb (Hnd & Ho) Hok. destruct st as [ids off]. cbn [fst snd] in *. destruct e as [u|id|id]; unfold st_inv; cbn [ev_step fst snd].
+  - rewrite block_ids_eq. cbn [fst snd]. split; [apply nodup_filter; exact Hnd|].
+    pose proof (sweep_window_ok_lem (zlen ids) off b (zlen_nonneg ids)). lia.
+  - split; [apply nodup_filter; exact Hnd|exact Ho].
+  - split; [|exact Ho]. destruct Hok as (Hni & _).
+    apply nodup_snoc; auto.
+Qed.
+
+(* x can only leave the list, never come back *)
+Lemma ev_step_in_back b st e x : ev_ok x st e -> In x (fst (ev_step b st e)) -> In x (fst st).
+Proof.
+  intros Hok Hin. destruct st as [ids off]. destruct e as [u|id|id]; cbn [ev_step fst snd] in *.
+  - rewrite block_ids_eq in Hin. cbn [fst snd] in Hin. apply filter_In in Hin. tauto.
+  - apply filter_In in Hin. tauto.
+  - apply in_app_or in Hin. destruct Hin as [H|[H|[]]]; [exact H|]. destruct Hok as (_ & Hne). congruence.
+Qed.
+
+(* the step lemma: the potential pays for every block x survives, and no user step raises it *)
+Lemma pot_step b st e x c : 0 < b -> st_inv st -> ev_ok x st e -> is_create e <= c ->
+  In x (fst (ev_step b st e)) ->
+  pot b x (ev_step b st e) (c - is_create e) + is_block e <= pot b x st c.
+Proof.
+  intros Hb (Hnd & Ho) Hok Hc Hin.
+  pose proof (ev_step_in_back b st e x Hok Hin) as Hx.
+  destruct st as [ids off]. cbn [fst snd] in *.
+  pose proof (idx_bounds x ids Hx) as Hi.
+  destruct e as [u|id|id]; cbn [is_create is_block] in *.
+  - (* a block *)
+    cbn [ev_step fst snd] in *. rewrite block_ids_eq in *. cbn [fst snd] in *.
+    replace (c - 0) with c by lia.
+    set (se := sweep_window (zlen ids) off b) in *.
+    set (seized := filter u (window_of ids off b)) in *.
+    pose proof (sweep_window_ok_lem (zlen ids) off b (zlen_nonneg ids)) as Hw. fold se in Hw.
+    (* x is not in the window, else it would have been seized *)
+    assert (Hnw : ~ (fst se <= idx x ids < snd se)).
+    { intros Hr. apply filter_In in Hin. destruct Hin as (_ & Hm).
+      assert (In x seized). { unfold seized. apply filter_In. split; [apply in_window_of; assumption|exact Hok]. }
+      apply mem_z_in in H. rewrite H in Hm. discriminate. }
+    destruct seized as [|y ys] eqn:Es.
+    + (* nothing seized: the list is unchanged *)
+      rewrite filter_all by (intros; reflexivity).
+      unfold pot. cbn [fst snd].
+      pose proof (pot_T_quiet (zlen ids) (idx x ids) off b Hb Hi Ho Hnw). fold se in H. lia.
+    + (* something seized: the list shrinks *)
+      assert (Hy : In y (window_of ids off b) /\ u y = true).
+      { apply filter_In. unfold seized in Es. rewrite Es. left; reflexivity. }
+      assert (Hyi : In y ids). { unfold window_of in Hy. destruct Hy as (Hy & _). apply in_firstn in Hy. apply in_skipn in Hy. exact Hy. }
+      assert (Hfy : (fun id : Z => negb (mem_z id (y :: ys))) y = false).
+      { cbn beta. unfold mem_z. cbn [existsb]. rewrite Z.eqb_refl. reflexivity. }
+      pose proof (pot_shrink b x ids off _ (snd se) c Hb ltac:(lia) Hx Hin ltac:(lia)
+                   (zlen_filter_lt (fun id : Z => negb (mem_z id (y :: ys))) ids y Hyi Hfy)).
+      lia.
+  - (* close of another position *)
+    cbn [ev_step fst snd] in *. replace (c - 0) with c by lia.
+    destruct (in_dec Z.eq_dec id ids) as [Hid|Hid].
+    + assert (Hfy : (fun x0 : Z => negb (x0 =? id)) id = false) by (cbn beta; rewrite Z.eqb_refl; reflexivity).
+      pose proof (pot_shrink b x ids off _ off c Hb ltac:(lia) Hx Hin Ho
+                   (zlen_filter_lt (fun x0 : Z => negb (x0 =? id)) ids id Hid Hfy)). lia.
+    + rewrite filter_all; [lia|]. intros y Hy. destruct (y =? id) eqn:E; [|reflexivity].
+      exfalso. apply Hid. assert (y = id) by lia. subst; exact Hy.
+  - (* creation: appended *)
+    cbn [ev_step fst snd] in *. unfold pot. cbn [fst snd].
+    rewrite zlen_app. replace (zlen [id]) with 1 by reflexivity.
+    unfold idx. rewrite idxn_app_l by exact Hx. fold (idx x ids).
+    replace (zlen ids + 1 + (c - 1)) with (zlen ids + c) by lia.
+    pose proof (pot_T_create (zlen ids) (idx x ids) off b Hb Hi Ho). lia.
+Qed.
+
+Lemma pot_nonneg b x st c : 0 < b -> 0 <= c -> In x (fst st) -> 0 <= snd st -> 0 <= pot b x st c.
+Proof.
+  intros Hb Hc Hx Ho. unfold pot. pose proof (idx_bounds x _ Hx) as Hi.
+  pose proof (pot_T_bounds _ _ _ b Hb Hi Ho).
+  pose proof (live_R_pos (zlen (fst st) + c) b Hb ltac:(lia)). nia.
+Qed.
+
+Lemma n_blocks_cons e r : n_blocks (e :: r) = is_block e + n_blocks r.
+Proof. reflexivity. Qed.
+Lemma n_creates_cons e r : n_creates (e :: r) = is_create e + n_creates r.
+Proof. reflexivity. Qed.
+Lemma is_create_nonneg e : 0 <= is_create e. Proof. destruct e; cbn; lia. Qed.
+Lemma n_creates_nonneg evs : 0 <= n_creates evs.
+Proof. induction evs as [|e r IH]; [cbn; lia|]. rewrite n_creates_cons. pose proof (is_create_nonneg e). lia. Qed.
+
+(* main induction: while x is still in the list, the number of blocks run is at most the potential *)
+Lemma live_main b x : 0 < b -> forall evs st c,
+  st_inv st -> run_ok b x st evs -> n_creates evs <= c ->
+  In x (fst (fold_left (ev_step b) evs st)) ->
+  In x (fst st) /\ n_blocks evs <= pot b x st c.
+Proof.
+  intros Hb. induction evs as [|e r IH]; intros st c Hinv Hok Hc Hin.
+  - cbn [fold_left] in Hin. split; [exact Hin|]. destruct Hinv as (_ & Ho).
+    replace (n_blocks []) with 0 by reflexivity. replace (n_creates []) with 0 in Hc by reflexivity.
+    apply pot_nonneg; auto.
+  - cbn [fold_left] in Hin. destruct Hok as (Hok1 & Hok2). rewrite n_creates_cons in Hc.
+    pose proof (is_create_nonneg e). pose proof (n_creates_nonneg r).
+    destruct (IH (ev_step b st e) (c - is_create e) (ev_step_inv b st e x Hb Hinv Hok1) Hok2 ltac:(lia) Hin) as (Hx' & Hle).
+    split; [exact (ev_step_in_back b st e x Hok1 Hx')|].
+    pose proof (pot_step b st e x c Hb Hinv Hok1 ltac:(lia) Hx'). rewrite n_blocks_cons. lia.
+Qed.
+
+Lemma pot_le_bound b x ids off c : 0 < b -> 0 <= c -> In x ids -> 0 <= off ->
+  pot b x (ids, off) c <= live_bound (zlen ids + c) c b - 1.
+Proof.
+  intros Hb Hc Hx Ho. unfold pot, live_bound. cbn [fst snd].
+  pose proof (idx_bounds x ids Hx) as Hi.
+  pose proof (pot_T_bounds _ _ _ b Hb Hi Ho).
+  pose proof (live_R_mono (zlen ids + c) (zlen ids) b Hb ltac:(lia)). lia.
+Qed.
+
+(* liveness, interleaved: creations (appended, fresh ids) and closes / seizures of OTHER positions
+   between the blocks, any verdicts for the others in every block (every price path); x unsafe
+   in every block.  After live_bound blocks x has left the list. *)
+Theorem live_interleaved : forall b x ids off evs c,
+  1 <= b -> 0 <= off -> NoDup ids -> In x ids ->
+  run_ok b x (ids, off) evs -> n_creates evs <= c ->
+  live_bound (zlen ids + c) c b <= n_blocks evs ->
+  ~ In x (fst (fold_left (ev_step b) evs (ids, off))).
+Proof.
+  intros b x ids off evs c Hb Ho Hnd Hx Hok Hc Hn Hin.
+  destruct (live_main b x ltac:(lia) evs (ids, off) c (conj Hnd Ho) Hok Hc Hin) as (_ & Hle).
+  pose proof (n_creates_nonneg evs).
+  pose proof (pot_le_bound b x ids off c ltac:(lia) ltac:(lia) Hx Ho). lia.
+Qed.
+
+(* quiet case: only blocks *)
+Definition blocks_of (us : list (Z -> bool)) : list event := map EBlock us.
+
+Lemma n_blocks_blocks_of us : n_blocks (blocks_of us) = zlen us.
+Proof. induction us as [|u us IH]; [reflexivity|]. unfold blocks_of in *. cbn [map]. rewrite n_blocks_cons, IH, zlen_cons. cbn [is_block]. lia. Qed.
+Lemma n_creates_blocks_of us : n_creates (blocks_of us) = 0.
+Proof. induction us as [|u us IH]; [reflexivity|]. unfold blocks_of in *. cbn [map]. rewrite n_creates_cons, IH. reflexivity. Qed.
+Lemma run_ok_blocks_of b x us : Forall (fun u => u x = true) us -> forall st, run_ok b x st (blocks_of us).
+Proof. induction 1 as [|u us Hu _ IH]; intros st; cbn; [exact I|]. split; [exact Hu|apply IH]. Qed.
+
+Theorem live_quiet : forall b x ids off us,
+  1 <= b -> 0 <= off -> NoDup ids -> In x ids ->
+  Forall (fun u => u x = true) us ->
+  live_bound (zlen ids) 0 b <= zlen us ->
+  ~ In x (fst (fold_left (ev_step b) (blocks_of us) (ids, off))).
+Proof.
+  intros b x ids off us Hb Ho Hnd Hx Hu Hn.
+  apply (live_interleaved b x ids off (blocks_of us) 0 Hb Ho Hnd Hx (run_ok_blocks_of b x us Hu _)).
+  - rewrite n_creates_blocks_of. lia.
+  - rewrite n_blocks_blocks_of. replace (zlen ids + 0) with (zlen ids) by lia. exact Hn.
+Qed.
+
+(* the block of the schedule IS the keepers' sweep (V2 LiquidateVaults; V1 the sweep of one app over
+   that app's positions) with counter = capacity = length, as long as the length fits an int64 *)
+Lemma sweep_items_lpos_v1 : forall u w, sweep_items GV1 0 (map (lpos u) w) = (filter u w, Done).
+Proof.
+  induction w as [|a w IH]; [reflexivity|].
+  cbn [map sweep_items eff_verdict lpos p_v p_id p_app filter]. rewrite Z.eqb_refl.
+  destruct (u a); rewrite IH; reflexivity.
+Qed.
+
+Lemma sweep_core_lpos : forall g ids off b u, (g = GV1 \/ g = GV2) ->
+  sweep_core g 0 (map (lpos u) ids) (zlen ids) (zlen ids) off b =
+    Ok (filter u (window_of ids off b),
+        after_seize g (filter u (window_of ids off b)) (map (lpos u) ids),
+        snd (sweep_window (zlen ids) off b), false).
+Proof.
+  intros g ids off b u Hg. unfold sweep_core, window_of.
+  destruct (sweep_window_ok_lem (zlen ids) off b (zlen_nonneg ids)) as ((H1 & H2) & H3).
+  set (se := sweep_window (zlen ids) off b) in *.
+  unfold go_slice.
+  replace ((0 <=? fst se) && (fst se <=? snd se) && (snd se <=? zlen ids)) with true by lia.
+  rewrite zlen_map. replace (zlen ids - zlen ids) with 0 by lia. cbn [Z.to_nat repeat].
+  rewrite app_nil_r, skipn_map, firstn_map.
+  destruct Hg as [-> | ->]; [rewrite sweep_items_lpos_v1|rewrite sweep_items_lpos]; reflexivity.
+Qed.
+
+Lemma block_is_sweep_one : forall g ids off b u, (g = GV1 \/ g = GV2) -> zlen ids < two63 ->
+  exists r, sweep_one g 0 (map (lpos u) ids) (zlen ids) (zlen ids) off b = Ok r /\
+            block_ids ids off b u = (r_seized r, map p_id (r_list r), r_off r) /\
+            r_aborted r = false.
+Proof.
+  intros g ids off b u Hg Hlt.
+  assert (Hint : int_of_u64 (zlen ids) = zlen ids).
+  { unfold int_of_u64. pose proof (zlen_nonneg ids). replace (zlen ids >=? two63) with false by lia. reflexivity. }
+  unfold sweep_one. rewrite Hint, (sweep_core_lpos g ids off b u Hg).
+  eexists. split; [reflexivity|]. cbn [r_seized r_list r_off r_aborted]. split; [|reflexivity].
+  rewrite block_ids_eq. f_equal. f_equal.
+  assert (after_seize g (filter u (window_of ids off b)) (map (lpos u) ids) =
+          after_seize GV2 (filter u (window_of ids off b)) (map (lpos u) ids)) as ->
+    by (destruct Hg as [-> | ->]; reflexivity).
+  rewrite map_id_after_seize. reflexivity.
+Qed.
+
+(* ---- refutations ---- *)
+
+(* the literal bound of the property, "two full sweeps of the list", is false even with constant
+   verdicts: 9 positions, batch 1, positions 5..8 unsafe: position 8 is still open after 18 blocks *)
+Lemma two_sweeps_refuted_static :
+  let ids := [0;1;2;3;4;5;6;7;8] in
+  let u := pattern 480 in
+  u 8 = true /\ two_sweeps 9 1 = 18 /\
+  In 8 (fst (fold_left (ev_step 1) (blocks_of (repeat u 18)) (ids, 0))) /\
+  ~ In 8 (fst (fold_left (ev_step 1) (blocks_of (repeat u 19)) (ids, 0))).
+Proof. vm_compute. repeat split; try tauto. intros [H|[H|[H|[H|[H|[]]]]]]; discriminate. Qed.
+
+(* falling market: 6 positions, batch 1; position 5 unsafe from the start, the others become
+   unsafe one by one just when the window reaches them: still open after 15 blocks > 12 *)
+Definition below (k : Z) : Z -> bool := fun id => k <=? id.
+Definition falling_schedule : list (Z -> bool) :=
+  repeat (below 5) 4 ++ repeat (below 4) 4 ++ repeat (below 3) 3 ++ repeat (below 2) 2 ++ [below 1; below 0; below 0].
+
+Lemma two_sweeps_refuted_falling :
+  Forall (fun u => u 5 = true) falling_schedule /\ two_sweeps 6 1 = 12 /\
+  In 5 (fst (fold_left (ev_step 1) (blocks_of (firstn 15 falling_schedule)) ([0;1;2;3;4;5], 0))) /\
+  ~ In 5 (fst (fold_left (ev_step 1) (blocks_of falling_schedule) ([0;1;2;3;4;5], 0))).
+Proof.
+  split; [repeat constructor|]. vm_compute. repeat split; auto; try (intros H; intuition discriminate).
+Qed.
+
+(* V2 as deployed (vault sweep + borrow sweep sharing offset key 0): 2 vaults, batch 1, the second
+   one unsafe with every liveness hypothesis met: the hook is a fixed point, nothing is ever seized *)
+Definition v2_starved : v2_state := mkV2 [mkPos 1 0 VKeep; mkPos 2 0 VSeize] 2 0 [].
+
+Lemma live_v2_refuted : forall k, run_v2 (fun n => n) 1 k v2_starved = Ok v2_starved.
+Proof.
+  induction k as [|k IH]; [reflexivity|]. cbn [run_v2].
+  replace (sweep_v2 (fun n => n) 1 v2_starved) with (Ok ([] : list Z, [] : list Z, v2_starved, false))
+    by (vm_compute; reflexivity).
+  exact IH.
+Qed.
+
+(* V2 borrow sweep: one erroring borrow in front of an unsafe one: the loop aborts before it, forever *)
+Definition v2_borrow_starved : v2_state := mkV2 [] 0 0 [mkPos 1 0 VErr; mkPos 2 0 VSeize].
+
+Lemma live_borrow_refuted : forall k, run_v2 (fun n => n) 5 k v2_borrow_starved = Ok v2_borrow_starved.
+Proof.
+  induction k as [|k IH]; [reflexivity|]. cbn [run_v2].
+  replace (sweep_v2 (fun n => n) 5 v2_borrow_starved) with (Ok ([] : list Z, [] : list Z, v2_borrow_starved, true))
+    by (vm_compute; reflexivity).
+  exact IH.
+Qed.
+
+(* with the loop wrapped per item (as the V1 borrow sweep is) the same list is served at once *)
+Lemma live_borrow_wrapped_ok :
+  exists r, sweep_one GB1 0 [mkPos 1 0 VErr; mkPos 2 0 VSeize] 2 2 0 5 = Ok r /\ r_seized r = [2].
+Proof. eexists. split; [vm_compute; reflexivity|reflexivity]. Qed.
